@@ -14,10 +14,24 @@ contract(
     id="tag_request_path.callsite", func="pycomm3.packets.util.tag_request_path",
     call="pycomm3.packets.util.tag_request_path(tag, tag_info, use_instance_ids)",
     params={"tag": P.str(**IDENT), "tag_info": P.const("{'instance_id': 5}"), "use_instance_ids": P.bool()},
-    ref="spec.abstract.bytes_of(pycomm3.packets.util.tag_request_path, tag, tag_info, use_instance_ids)",
+    ref="spec.epath.tag_path_or_raise(pycomm3.packets.util.tag_request_path, tag, tag_info, use_instance_ids)",
     callsite_ensures=["len(result) >= 5", "len(result) <= 2 * len(tag) + 8", "len(result) % 2 == 1"],
     assumed=True, callsite=True, props=["C04", "C01", "C02", "C03"],
-    note="content abstracted (proved in C09 by the tag_request_path.* contracts); the length bounds are re-proved there for the same shapes")
+    note="content abstracted (proved in C09 by the tag_request_path.* contracts); 'a malformed index raises' is checked by the "
+         "bounded enumeration tag_request_path.malformed, not proved")
+
+
+def _malformed(tier):
+    for t in ("a[", "a[]", "a[x]", "a[1", "a[1,]", "a[,1]", "a[1][2]", "a[-1]", "a[1.5]", "a[4294967296]", "a[99999999999]", "a.b[y]",
+              "a[1].b[", "a[ 1]", "a[1 ]", "a[0x10]", "a[1,2,x]", "Program:P.a[z]", "a[[1]]", "a[1]]"):
+        yield {"tag": t}
+
+
+contract(
+    id="tag_request_path.malformed", func="pycomm3.packets.util.tag_request_path",
+    call="spec.epath.raises_something(lambda: pycomm3.packets.util.tag_request_path(tag, {'instance_id': 5}, False)) or spec.epath.wellformed_tag(tag)",
+    ref="True", params={"tag": P.str()}, enum=_malformed, callsite=False, props=["C03", "C04"],
+    bounded="the string surgery of _find_tag_index on arbitrary malformed text is outside the constructed-term strings the engine handles")
 
 
 def _tag_info(kind):
